@@ -271,6 +271,21 @@ def classify_invalid(merged, err, inputs=None, ignore_transients=False):
         # the recorded finding: both sides upgraded a pre-4.5 base to 4.5
         if inputs and inputs[0].get('nbformat_minor', 0) < 5 and all(x.get('nbformat_minor', 0) >= 5 for x in inputs[1:]):
             return 'id-missing'
+        # another recorded finding: only ONE side upgraded the pre-4.5 base to 4.5 (so the merge declares 4.5), and the cell without
+        # id is one of the pre-4.5 documents: inserted or kept by the side that was not upgraded, or a base cell the merge keeps as it was
+        if inputs and m and inputs[0].get('nbformat_minor', 0) < 5:
+            minors = [x.get('nbformat_minor', 0) for x in inputs[1:]]
+            if sorted(v >= 5 for v in minors) == [False, True]:
+                old_side = inputs[1:][[v >= 5 for v in minors].index(False)]
+                new_side = inputs[1:][[v >= 5 for v in minors].index(True)]
+                cell = merged['cells'][int(m.group(1))]
+                same = lambda c: c.get('source') == cell.get('source') and c.get('cell_type') == cell.get('cell_type')
+                from_old = any(same(c) and 'id' not in c for c in list(old_side.get('cells', [])) + list(inputs[0].get('cells', [])))
+                from_new = any(same(c) and 'id' in c for c in new_side.get('cells', []))
+                # cells of the upgraded side carry ids; an id-less cell that is not one of them (stripped of its id) comes from the
+                # pre-4.5 documents or is a conflict cell built from them
+                if from_old or not from_new:
+                    return 'one-sided-upgrade-id-missing'
         return 'other-id-missing'
     if re.search(r"'(outputs|execution_count)'(, '(outputs|execution_count)')* (was|were) unexpected\) at /cells/\d+$", err) or \
             re.search(r"^'(outputs|execution_count)' is a required property at /cells/\d+$", err):
@@ -298,7 +313,7 @@ def classify_invalid(merged, err, inputs=None, ignore_transients=False):
             cell = merged['cells'][int(m.group(1))]
             tags = list(cell['metadata']['tags'])
             dup = sorted(t for t in set(tags) if tags.count(t) > 1)
-            sides = [_matching_cell(nb, cell) for nb in inputs]
+            sides = [_matching_cell(nb, cell, int(m.group(1)) if len(nb.get('cells', [])) == len(merged['cells']) else None) for nb in inputs]
             if all(c is not None for c in sides):
                 bt, lt, rt = [list(c.get('metadata', {}).get('tags', [])) for c in sides]
                 before = lambda ts, t: [u for u in ts[:ts.index(t)] if u in bt]
@@ -312,11 +327,14 @@ def classify_invalid(merged, err, inputs=None, ignore_transients=False):
     return 'other:' + re.sub(r"'[^']*'", "'..'", err)[:60]
 
 
-def _matching_cell(nb, cell):
-    "the cell of nb that `cell` (of the merged notebook) stems from: by id, else by source text"
+def _matching_cell(nb, cell, index=None):
+    "the cell of nb that `cell` (of the merged notebook) stems from: by id, else by source text (at the same index when the cell counts agree)"
     cands = [c for c in nb.get('cells', []) if cell.get('id') is not None and c.get('id') == cell.get('id')]
     if not cands:
-        cands = [c for c in nb.get('cells', []) if c.get('source') == cell.get('source') and c.get('cell_type') == cell.get('cell_type')]
+        same = lambda c: c.get('source') == cell.get('source') and c.get('cell_type') == cell.get('cell_type')
+        if index is not None and index < len(nb.get('cells', [])) and same(nb['cells'][index]):
+            return nb['cells'][index]
+        cands = [c for c in nb.get('cells', []) if same(c)]
     return cands[0] if len(cands) >= 1 else None
 
 
